@@ -91,6 +91,25 @@ def string_lemma(E):
     E.prove('decode:cursor-advances-by-width', E.get(d, '_pointer') == cur + L.length(s))
 
 
+TEXTS = ['', 'abc', 'T=21', '\u00e9', '\u00dcn\u00efcode', '\u6e29\u5ea6', 'a\u20acb', '21\u00b0C', '\U0001f600x', 'na\u00efve caf\u00e9 \u2713']
+
+
+def text_lemma(E):
+    """a str value (add_string takes text as well as bytes): its image is its UTF-8 encoding, all of it, and decoding that many bytes
+    gives the encoding back.  Text is outside the engine's value domain: bounded stand-in over a fixed list of ASCII and non-ASCII texts"""
+    bo, wo = E.choice('orders', ORDERS)
+    t = E.choice('text', TEXTS)
+    want = t.encode()
+    b = builder(E, bo, wo)
+    E.method(b, 'add_string', t)
+    enc = E.method(b, 'to_string')
+    E.prove('image:text-is-its-utf8-encoding-in-full', bytes(enc) == want)
+    d = decoder(E, bytes(enc) + b'\x55', 0, bo, wo)
+    got = E.method(d, 'decode_string', len(want))
+    E.prove('decode:text-bytes-recovered', bytes(got) == want)
+    E.prove('decode:cursor-advances-by-width', E.get(d, '_pointer') == len(want))
+
+
 def bits_lemma(E):
     bo, wo = E.choice('orders', ORDERS)
     bits = E.bools('bits', 1, 8)
@@ -144,6 +163,9 @@ def get_units():
     for nm in FLOATS:
         us.append(Unit('C19/' + nm, float_lemma(nm), ['C19'], functions=[B + '.add_' + nm, D + '.decode_' + nm, B + '._pack_words', D + '._unpack_words']))
     us.append(Unit('C19/string', string_lemma, ['C19'], functions=[B + '.add_string', D + '.decode_string']))
+    u = Unit('C19/string.text', text_lemma, ['C19'], functions=[B + '.add_string', D + '.decode_string'])
+    u.concrete_only, u.bounded = True, True
+    us.append(u)
     us.append(Unit('C19/bits', bits_lemma, ['C19'], contracts=cs, functions=[B + '.add_bits', D + '.decode_bits']))
     us.append(Unit('C19/sequence', sequence_lemma, ['C19'], functions=[B + '.to_string']))
     us.append(Unit('C19/registers', registers_lemma, ['C19'], functions=[B + '.build', B + '.to_registers', D + '.fromRegisters']))
